@@ -194,19 +194,6 @@ def oracle_state(rules, step):
     return sorted(out)
 
 
-def collision(step):
-    """Two listings of different components translate to the same annotated triple (an IRI of one component
-    plus a prefix of the local name equals the IRI of another): the tag seeded for it depends on the order in
-    which the components are visited."""
-    seen = {}
-    for comp, trs in [(w["iri"], w["triples"]) for w in step["windows"]] + [(g["iri"], g["triples"]) for g in step["statics"]]:
-        for t in trs:
-            f = (t[0], comp + t[1], t[2])
-            if seen.setdefault(f, comp) != comp:
-                return True
-    return False
-
-
 def window_consistent(prev, step):
     """The quantifier text, as a predicate on two consecutive contents (prev may be None)."""
     for w in step["windows"]:
@@ -228,8 +215,10 @@ def window_consistent(prev, step):
                     return False
     if len(pw) != len(step["windows"]):
         return False
-    if json.dumps(prev["statics"], sort_keys=True) != json.dumps(step["statics"], sort_keys=True):
-        return False
+    cur_st = {g["iri"]: {tuple(x) for x in g["triples"]} for g in step["statics"]}
+    for g in prev["statics"]:          # static graphs keep their triples (they may gain some)
+        if g["iri"] not in cur_st or not {tuple(x) for x in g["triples"]} <= cur_st[g["iri"]]:
+            return False
     return sorted(prev["outputs"]) == sorted(step["outputs"])
 
 
@@ -294,7 +283,7 @@ def gen_rules(rng, wins, stats, outs):
             for _c in range(rng.choice([1, 1, 2])):
                 s_ = V(rng.choice(pv)) if rng.random() < 0.9 else Cn(rng.choice(TERMS))
                 o_ = V(rng.choice(pv)) if rng.random() < 0.9 else Cn(rng.choice(TERMS))
-                concl.append([s_, Cn(rng.choice(opreds + opreds + wpreds)), o_])
+                concl.append([s_, Cn(rng.choice(opreds + opreds + wpreds + spreds)), o_])
             r = {"prem": prem, "concl": concl}
         rules.append(r)
     rng.shuffle(rules)
@@ -313,6 +302,9 @@ def gen_history(rng, thorough=False):
     statics = [{"iri": g, "triples": sorted({(rng.choice(T), rng.choice(LOCALS[:2]), rng.choice(T)) for _ in range(rng.randrange(0, 4))})} for g in stats]
     statics = [{"iri": g["iri"], "triples": [list(t) for t in g["triples"]]} for g in statics]
     content = {w: {} for w in wins}
+    # local names that make a listing of window w coincide with an annotated predicate of a longer component
+    # (IRI-prefix overlap): the same annotated triple listed by two components
+    extra = {w: [c[len(w):] + l for c in wins + stats + outs if c != w and c.startswith(w) for l in LOCALS[:2]] for w in wins}
     steps = []
     now = rng.randrange(0, 4)
     nsteps = rng.randrange(5, 11)
@@ -325,7 +317,8 @@ def gen_history(rng, thorough=False):
                 if content[w] and rng.random() < 0.35:
                     key = rng.choice(sorted(content[w]))          # renewal of a listed triple
                 else:
-                    key = (rng.choice(T), rng.choice(LOCALS[:2]), rng.choice(T))
+                    loc = rng.choice(extra[w]) if extra[w] and rng.random() < 0.3 else rng.choice(LOCALS[:2])
+                    key = (rng.choice(T), loc, rng.choice(T))
                 t = rng.randrange(prev + 1, now + 1) if rng.random() < 0.9 else max(0, prev - rng.randrange(0, 3))
                 if key not in content[w] or content[w][key] < t:
                     content[w][key] = t
@@ -334,6 +327,9 @@ def gen_history(rng, thorough=False):
             for key in sorted(content[w]):
                 if content[w][key] + alphas[w] <= now and rng.random() < 0.7:
                     del content[w][key]
+        if statics and rng.random() < 0.08:     # a static graph gains a triple (possibly one that is alive with a finite expiry)
+            statics = json.loads(json.dumps(statics))
+            statics[rng.randrange(len(statics))]["triples"].append([rng.choice(T), rng.choice(LOCALS[:2]), rng.choice(T)])
         step = {"now": now,
                 "windows": [{"iri": w, "alpha": alphas[w], "triples": [list(k) + [t] for k, t in sorted(content[w].items())]} for w in wins],
                 "statics": statics, "outputs": outs}
@@ -472,7 +468,7 @@ def evaluate(ctx, binpath, cases, stream, oracle=True):
     model = ctx.run_model("CrossWindow", ["KV.CrossWindow.Model", "KV.CrossWindow.Spec", "KV.CrossWindow.Run"],
                           [case_expr(c) for c in cases], preamble="Open Scope N_scope.")
     ctx.log("%s: %d cases evaluated by the implementation and the model" % (stream, len(cases)))
-    nmis = nviol = nsteps = nskip = 0
+    nmis = nviol = nsteps = 0
     dist = {"steps": 0, "rules": 0, "derived_entries": 0, "entries": 0, "d_old_steps": 0, "renewal_steps": 0, "empty_results": 0}
     for c, im, mo in zip(cases, impl, model):
         if isinstance(mo, tuple) and mo and mo[0] == "ERROR":
@@ -503,9 +499,8 @@ def evaluate(ctx, binpath, cases, stream, oracle=True):
             in_domain = oracle and "init_state" not in c
             if in_domain:
                 consistent = consistent and window_consistent(prev_step, step)
-            known_cls = collision(step)
             bad = None
-            if in_domain and consistent and not known_cls:
+            if in_domain and consistent:
                 o_inc = canon_inc(ix, oracle_state(c["rules"], step))
                 if m_spec is not None and m_spec != o_inc:
                     ctx.broken("spec-oracle", stream, "Spec.v spec_state and the brute-force oracle disagree at step %d" % k,
@@ -520,19 +515,16 @@ def evaluate(ctx, binpath, cases, stream, oracle=True):
                            "step": k, "now": step["now"], "naive": out["naive"][:12]}
                 elif not out.get("stable", True):
                     bad = {"what": "incremental result depends on hash iteration order", "step": k}
-            elif known_cls:
-                nskip += 1
             if bad:
                 ctx.violation({"rules": c["rules"], "steps": c["steps"][:k + 1]}, bad)
                 nviol += 1
                 break
             if i_inc != m_inc or sorted(set(i_naive)) != m_naive or i_ext != sorted(x[:4] for x in i_inc):
-                if not known_cls:
-                    nmis += 1
-                    ctx.broken("correspondence", stream,
-                               "implementation and model outputs differ at step %d but the Spec oracle accepts the implementation" % k,
-                               {"case": c, "impl_inc": out["inc"][:10], "model_inc": m_inc[:10], "impl_naive": out["naive"][:10]})
-                    break
+                nmis += 1
+                ctx.broken("correspondence", stream,
+                           "implementation and model outputs differ at step %d but the Spec oracle accepts the implementation" % k,
+                           {"case": c, "impl_inc": out["inc"][:10], "model_inc": m_inc[:10], "impl_naive": out["naive"][:10]})
+                break
             # distribution / non-triviality
             base = alive_base(step)
             dist["steps"] += 1
@@ -554,8 +546,7 @@ def evaluate(ctx, binpath, cases, stream, oracle=True):
             prev_step, prev_inc = step, out["inc"]
         if nontrivial:
             ctx.nontrivial(json.dumps(c, sort_keys=True))
-    ctx.stream(stream, cases=len(cases), impl_model_mismatches=nmis, spec_violations=nviol,
-               skipped_known_class=nskip, **dist)
+    ctx.stream(stream, cases=len(cases), impl_model_mismatches=nmis, spec_violations=nviol, **dist)
 
 
 def load_corpus():
@@ -575,9 +566,8 @@ TRUSTED = [
     "dictionary ids abstracted to an injective encoding of the strings; HashMap/HashSet orders to list order (outputs compared as sorted sets)",
     "correspondence check: harness/src/bin/c12.rs (public API only), checks/c12.py generators, canonicalisation and the brute-force oracle",
 ]
-ASSUME = ["timestamps + width below u64::MAX (no saturation) and evaluation times below u64::MAX",
-          "static graphs and the set of components do not change along a history",
-          "no two components list the same annotated triple (IRI-prefix collisions are a separate class)",
+ASSUME = ["evaluation times below u64::MAX",
+          "the windows (IRI, width) and output IRIs do not change along a history; static graphs keep their triples (they may gain some)",
           "rules are positive, safe, have at least one premise and constant conclusion predicates that belong to a component"]
 
 
